@@ -85,3 +85,24 @@ Fixpoint run_requests_line (sk : list N) (fuel : nat) (rs : list (rop * request)
       (out, wtrace w', wnow w' - wnow w, wtie w', p_baud (l_port (wenv w')),
        (length (l_sent (wenv w')) - length (l_sent (wenv w)))%nat) :: run_requests_line sk fuel t w'
   end.
+
+(* ---- gpsd backend (server.py) under the request loop -------------------------------------------------
+   _receive = recv(128) on the data socket (None on timeout / empty), _transmit = one command on the control
+   socket (Backends.gpsd_transmit frames it; success = gpsd answered OK/ACK), _flush_input and _recover are
+   the base class's no-ops: data received before a transmission is NOT discarded by the backend. *)
+Definition gpsd_script_backend : backend script :=
+  mkBackend script s_receive s_transmit (fun s => s) (fun s => s).
+
+Definition visible_event (e : event) : bool :=
+  match e with Flush | Recover => false | _ => true end.
+
+(* a sequence of requests on one server object over gpsd; the no-op hooks leave no observable event *)
+Fixpoint run_requests_gpsd (sk : list N) (fuel : nat) (rs : list (rop * request)) (w : world script)
+  : list (outcome * list event * N * bool) :=
+  match rs with
+  | [] => []
+  | (o, rq) :: t =>
+      let w0 := mkWorld (wsrv w) (wenv w) (wnow w) [] false in
+      let (out, w') := do_request gpsd_script_backend sk fuel o rq w0 in
+      (out, filter visible_event (wtrace w'), wnow w' - wnow w, wtie w') :: run_requests_gpsd sk fuel t w'
+  end.
